@@ -38,6 +38,9 @@ NAMES = ['a', 'b', 'foo', 'foobar', 'foo_bar', 'pk', 'm', 'x1']
 DUNDER_LOOKALIKES = ['conf__init__', 'x__init__', '__init__x', 'test__main__', 'run__main__', '__main__x', '_main__', '_init__']
 MOD_NAMES = NAMES + DUNDER_LOOKALIKES + ['_priv']
 DIR_NAMES = NAMES + ['_impl', '_core', 'x__init__']
+# identifiers outside ASCII (PEP 3131) and directory names that are not identifiers at all
+UNI_NAMES = ['gr\u00fcn', 'st\u00fcck', '\u6570\u636e', '\u00e9t\u00e9']
+ODD_DIRS = UNI_NAMES + ['my-checkout', '3rdparty']
 LOOKALIKE = {'foo': ['foobar', 'foo_bar'], 'foobar': ['foo', 'foo_bar'], 'foo_bar': ['foo', 'foobar'],
              'a': ['b', 'x1'], 'b': ['a'], 'pk': ['m'], 'm': ['pk'], 'x1': ['a']}
 INIT, MAIN = '__init__.py', '__main__.py'
@@ -56,6 +59,10 @@ def gen_dir(rnd, depth, maxdepth, pkgish, weird_ok):
     if rnd.random() < 0.3:
         for nm in rnd.sample(DUNDER_LOOKALIKES + ['_priv'], rnd.choice([1, 1, 2])):
             d[nm + '.py'] = None              # conf__init__.py, run__main__.py, ...: ordinary modules
+    if rnd.random() < 0.15:
+        d[rnd.choice(UNI_NAMES + ['3rd']) + '.py'] = None
+    if depth < maxdepth and rnd.random() < 0.25:
+        d[rnd.choice(ODD_DIRS)] = gen_dir(rnd, depth + 1, maxdepth, rnd.random() < 0.85, weird_ok)
     if depth < maxdepth and rnd.random() < 0.25:
         # a private sub-package, a hidden directory, a byte-code cache with stray files
         k = rnd.choice(['_impl', '_core', '_impl', '.tox', '__pycache__'])
@@ -308,7 +315,8 @@ def select_queries(rnd, t, roots, names, n):
             script = list(rnd.choice(real_roots)) + ['script.py']
         else:
             # the script lives inside some directory of the tree (possibly a package)
-            ds = [p for p, v in all_paths(t) if isinstance(v, dict)]
+            # (the script directory becomes a search root: roots have regular, dot-free names)
+            ds = [p for p, v in all_paths(t) if isinstance(v, dict) and all('.' not in c for c in p)]
             script = list(rnd.choice(ds)) + ['script.py']
         qs.append(dict(kind='select', script=script, sys_path=[list(x) for x in roots],
                        entries=[dict(name='.'.join(c), comps=c)], judge=True))
@@ -581,6 +589,27 @@ def fixed_scenarios():
     for p in (['r0', 'pkg'], ['r0', 'pkg', '_impl'], ['r0', 'pk2'], ['r0', 'pk2', '.tox'], ['r0', 'pkg', 'conf__init__.py']):
         q5.append(dict(kind='select', script=['r0', 'script.py'], sys_path=[['r0']], entries=[dict(path=p)], judge=False))
     out.append(scenario_from_tree(t, [['r0']], q5, 'fixed-lookalike-private'))
+    # packages named with non-ASCII identifiers, and directories whose names are not identifiers
+    g, st, sj, ete = UNI_NAMES
+    t = {'r0': {g: {INIT: None, 'mod.py': None, 'part': {INIT: None, 'mod.py': None, MAIN: None}},
+                'plain2': {INIT: None, st: {INIT: None, 'mod.py': None, sj: {INIT: None, ete + '.py': None}}},
+                sj: {INIT: None, ete + '.py': None}, ete + '.py': None,
+                'my-checkout': {INIT: None, 'm.py': None, 'sub': {INIT: None, 'x.py': None}},
+                '3rdparty': {INIT: None, 'lib.py': None, g: {INIT: None, 'y.py': None}}}}
+    q6 = []
+    names6 = [g, g + '.mod', g + '.part.mod', g + '.part.__main__', 'plain2.' + st + '.mod', 'plain2.' + st + '.' + sj + '.' + ete, sj + '.' + ete, ete,
+              'my-checkout.m', 'my-checkout.sub.x', '3rdparty.lib', '3rdparty.' + g + '.y', g + '.nothing', 'grun.mod']
+    for n in names6:
+        for hi, hm in FLAGS[:1] + (FLAGS[1:] if n.endswith('__main__') else []):
+            q6.append(dict(kind='lookup', name=n, comps=n.split('.'), hi=hi, hm=hm, real=(hi, hm) == FLAGS[0], fms=False))
+    files, dirs = tree_lists(t)
+    q6 += [dict(kind='m2n', path=p, hi=True, hm=False) for p in files + dirs]
+    q6 += [dict(kind=k, path=p) for p in dirs for k in ('list', 'listpkg')]
+    for n in (g, g + '.part', 'plain2', 'plain2.' + st, 'my-checkout', '3rdparty', sj):
+        q6.append(dict(kind='select', script=['r0', 'script.py'], sys_path=[['r0']], entries=[dict(name=n, comps=n.split('.'))], judge=True))
+    for p in (['r0', g], ['r0', 'plain2', st], ['r0', 'my-checkout', 'sub']):
+        q6.append(dict(kind='select', script=['r0', 'script.py'], sys_path=[['r0']], entries=[dict(path=p)], judge=False))
+    out.append(scenario_from_tree(t, [['r0']], q6, 'fixed-unicode-odd-names'))
     return out
 
 
@@ -710,14 +739,21 @@ def in_quantifier(sc, q):
 
 
 # ---------------------------------------------------------------------------- Coq encoding
+def cq_s(s):
+    """Coq string literal.  Shard strings must be printable ASCII: every other character (PEP 3131
+    identifiers such as gr\u00fcn) is written as ~uXXXX~, which is injective on the generated names
+    (none contains '~') and leaves the characters the model looks at ('.', '_', letters) alone."""
+    return core.coq_str(''.join(ch if (32 <= ord(ch) < 127 and ch != '~') else '~u%04X~' % ord(ch) for ch in s))
+
+
 def cq_path(p):
-    return core.coq_list([core.coq_str(c) for c in p])
+    return core.coq_list([cq_s(c) for c in p])
 
 
 def cq_tree(t):
     if t is None:
         return 'File'
-    return 'Dir ' + core.coq_list(['(%s, %s)' % (core.coq_str(k), cq_tree(v)) for k, v in t.items()])
+    return 'Dir ' + core.coq_list(['(%s, %s)' % (cq_s(k), cq_tree(v)) for k, v in t.items()])
 
 
 def cq_ires(pf):
@@ -741,7 +777,7 @@ def cq_row(tname, sc, q, r):
     if q['kind'] == 'lookup':
         if r['err'] or r['back_err'] not in (None, 'ValueError') or r['pf'][0] == 'exc' or not encodable(r):
             return None
-        back = 'None' if not r['back_called'] else '(Some %s)' % core.coq_opt(core.coq_str(r['back']) if r['back'] is not None else None)
+        back = 'None' if not r['back_called'] else '(Some %s)' % core.coq_opt(cq_s(r['back']) if r['back'] is not None else None)
         fms = 'None'
         if 'fms' in r:
             if r['fms'][0] == 'exc':
@@ -767,7 +803,7 @@ def cq_row(tname, sc, q, r):
         judge = 'None'
         if q.get('judge') and select_judged(sc, q, r):
             judge = '(Some %s)' % cq_path(q['entries'][0]['comps'])
-        out = 'None' if r['out'] is None else '(Some %s)' % core.coq_list([core.coq_str(x) for x in r['out']])
+        out = 'None' if r['out'] is None else '(Some %s)' % core.coq_list([cq_s(x) for x in r['out']])
         return '(select_row %s %s %s %s %s %s)' % (tname, core.coq_list([cq_path(x) for x in q['sys_path']]),
                                                    cq_path(q['script']), ents, out, judge)
     if q['kind'] == 'm2n':
@@ -776,7 +812,7 @@ def cq_row(tname, sc, q, r):
         sp = 'None' if r['split'] is None else '(Some (%s, %s))' % (cq_path(r['split'][0]), cq_path(r['split'][1]))
         return '(m2n_row %s %s %s %s %s %s %s)' % (
             tname, cq_path(q['path']), core.coq_bool(q['hi']), core.coq_bool(q['hm']),
-            core.coq_opt(core.coq_str(r['name']) if r['name'] is not None else None), sp, cq_path(r['norm']))
+            core.coq_opt(cq_s(r['name']) if r['name'] is not None else None), sp, cq_path(r['norm']))
     raise ValueError(q['kind'])
 
 
